@@ -35,7 +35,7 @@ struct StaticSubject {
         GenOpts o;
         o.eps = 4;
         o.size_hint = size_hint >= 100 ? 100u : std::min(size_hint, 70u);
-        o.ef_bimodal = size_hint >= 100; // (64-bit keys only) a destination with >= 10^5 segments: long select superblocks
+        o.force_bimodal = size_hint >= 100 && sizeof(K) == 8; // a destination with >= 6*10^4 segments: long select superblocks in its succinct structures
         keys = gen_keys<K>(t, o, meta);
         // known findings of the classes themselves are excluded as in their own engines
         const K cap = std::numeric_limits<K>::max() - 16;
